@@ -420,7 +420,8 @@ def check_C01(rep, fl):
     # resident entries add up to more than max_cost while `used` looks fine
     import props_life
     props_life.check_handle_item_pairing(rep, fl, rule="R01.9", collisions=False,
-                                         only_sites=("victim => try_remove(victim.key, 0)", "victims inspected on every path"))
+                                         only_sites=("victim => try_remove(victim.key, 0)", "victims inspected on every path",
+                                                     "Delete => policy.remove + store.try_remove"))
 
     # ---- R01.7 capacity plumbing ---------------------------------------------------
     um = facts.body(SLFU + "::update_max_cost")
@@ -616,6 +617,25 @@ def check_C07(rep, fl):
     # --- R07.3 fill_sample ----------------------------------------------------------------------
     fs = facts.body(SLFU + "::fill_sample")
     check_fill_sample(rep, fl, fs)
+    # the candidate pool starts empty on every call: a buffer carried over from an earlier add() (a scratch field
+    # that is not emptied on some way out) makes fill_sample top up a stale sample, whose keys may have left since
+    okfresh = bool(fills)
+    srcs = []
+    for bi_, t_ in fills:
+        a_ = norm(body.call_args(t_, expand_vars=False)[1])
+        if a_[0] != "var":
+            okfresh = False
+            continue
+        l_ = body.name_local.get(a_[1])
+        for db, ds_ in body.defs.get(l_, []):
+            if body.in_loop(db):
+                continue  # `sample = fill_sample(sample)` and the swap-remove inside the loop
+            e_ = norm(body.def_expr(db, ds_, True))
+            srcs.append(show(e_))
+            if not (is_call(e_, "Vec::with_capacity") or is_call(e_, "Vec::new") or (e_[0] == "agg" and "Vec" in str(e_[2]) and not e_[3])):
+                okfresh = False
+    rep.check(okfresh, "R07.3", fl, body, "sample starts empty", "the candidate pool of add() is a new, empty Vec on every call",
+              "the candidate pool of add() is not created empty in the call (%s): candidates sampled by an earlier add() are re-used although they may no longer be resident" % ", ".join(srcs))
     ds = facts.const_value("policy::DEFAULT_SAMPLES")
     rep.check(ds == 5, "R07.3", fl, "policy::DEFAULT_SAMPLES", "value", "DEFAULT_SAMPLES == 5", "DEFAULT_SAMPLES == %s (the property states five candidates)" % ds)
     wh = facts.body(SLFU + "::with_hasher")
